@@ -418,7 +418,8 @@ def varEntries (names : List Name) (values : List Val) : List Entry :=
   names.zipIdx.map fun (n, k) => { kind := .var, name := n.n, id := n.id, init := initOf names.length values k }
 
 /-- Go spec "Constant declarations": inside a parenthesised group an empty expression list repeats the
-previous non-empty one; `iota` = index of the spec in the group. `inh` = the expression list in force.
+previous non-empty one; `iota` = index of the spec in the group. `inh` = the expression list in force
+(go/types assigns it position by position; a name without a partner has no value).
 Every spec is evaluated, entries are emitted only for the specs selected by `keep`.
 A spec all of whose names have been set to nil is about to be squeezed away by `finalizeRemovals`
 (build.go:563-569) and is skipped; parsed files contain no such spec. -/
@@ -431,7 +432,7 @@ def constEntries (keep : Spec → Bool) : List Spec → (iota : Nat) → (inh : 
     let eff := if vs.isEmpty then inh else vs
     let es := ns.zipIdx.map fun (n, k) =>
       ({ kind := .const, name := n.n, id := n.id,
-         cval := if ns.length == eff.length then (eff[k]?).map (fun v => v.a * iota + v.b) else none } : Entry)
+         cval := (eff[k]?).map (fun v => v.a * iota + v.b) } : Entry)
     (if keep (.value names values dirs tsels cms) then es else []) ++ constEntries keep rest (iota + 1) eff
   | _ :: rest, iota, inh => constEntries keep rest (iota + 1) inh
 
